@@ -151,6 +151,7 @@ func (x *g) genSecurityGadgetService() {
 		&spec.Scheme{Name: "gjwt", Kind: "jwt", Scopes: []string{"g:read", "g:write"}},
 		&spec.Scheme{Name: "gkey", Kind: "apikey"},
 		&spec.Scheme{Name: "gkey2", Kind: "apikey"},
+		&spec.Scheme{Name: "gkey3", Kind: "apikey"},
 		&spec.Scheme{Name: "goauth", Kind: "oauth2"}) // flows without any scope
 	str := func() *spec.Type { return &spec.Type{Kind: spec.String} }
 	list := &spec.Method{Name: "list",
@@ -167,15 +168,16 @@ func (x *g) genSecurityGadgetService() {
 		Result: &spec.Attr{Type: str()},
 		HTTP: &spec.HTTP{Routes: []spec.Route{{Verb: "POST", Path: "/create"}},
 			Headers: []spec.Loc{{Attr: "key_gkey", Wire: "X-G-Key"}}}}
-	// two schemes of the SAME kind in one requirement: both callbacks must accept
+	// two schemes of the SAME kind in one requirement: both callbacks must accept (schemes of their own: gkey must
+	// stay a scheme that the documents meet only AFTER gjwt, in create)
 	pair := &spec.Method{Name: "pair",
-		Security: []*spec.Requirement{{Schemes: []string{"gkey", "gkey2"}}},
+		Security: []*spec.Requirement{{Schemes: []string{"gkey3", "gkey2"}}},
 		Payload: &spec.Attr{Type: &spec.Type{Kind: spec.Object, Attrs: []*spec.Attr{
-			{Name: "key_gkey", Type: str(), Sec: "apikey:gkey"}, {Name: "key_gkey2", Type: str(), Sec: "apikey:gkey2"}, {Name: "note", Type: str()}},
-			Required: []string{"key_gkey", "key_gkey2"}}},
+			{Name: "key_gkey3", Type: str(), Sec: "apikey:gkey3"}, {Name: "key_gkey2", Type: str(), Sec: "apikey:gkey2"}, {Name: "note", Type: str()}},
+			Required: []string{"key_gkey3", "key_gkey2"}}},
 		Result: &spec.Attr{Type: str()},
 		HTTP: &spec.HTTP{Routes: []spec.Route{{Verb: "POST", Path: "/pair"}},
-			Headers: []spec.Loc{{Attr: "key_gkey", Wire: "X-G-Key"}}, Query: []spec.Loc{{Attr: "key_gkey2", Wire: "k2"}}}}
+			Headers: []spec.Loc{{Attr: "key_gkey3", Wire: "X-G-Key3"}}, Query: []spec.Loc{{Attr: "key_gkey2", Wire: "k2"}}}}
 	// an OAuth2 scheme that declares no scope
 	flow := &spec.Method{Name: "flow",
 		Security: []*spec.Requirement{{Schemes: []string{"goauth"}}},
